@@ -126,10 +126,11 @@ def rangeArea (cells : List (Nat × Nat × Val)) : Nat :=
   match cells with
   | [] => 0
   | c0 :: _ =>
-    let last := (cells.getLast?.getD c0).1
+    let rmin := cells.foldl (fun m c => min m c.1) c0.1
+    let rmax := cells.foldl (fun m c => max m c.1) c0.1
     let cmin := cells.foldl (fun m c => min m c.2.1) c0.2.1
     let cmax := cells.foldl (fun m c => max m c.2.1) c0.2.1
-    (last - c0.1 + 1) * (cmax - cmin + 1)
+    (rmax - rmin + 1) * (cmax - cmin + 1)
 
 def showRange (cfg : Cfg) (evs : List Ev) (cells : List (Nat × Nat × Val)) : String :=
   if rangeArea (cells.filter (fun c => c.2.2 ≠ .empty)) > 65536 then "skip" else
